@@ -212,3 +212,15 @@ def Index.getAll (ix : Index) (c : Cid) : List Nat :=
   | .mh m => MhIndex.getAll m c.mhCode c.digest
 
 end Car
+
+namespace Car
+
+/-- The byte count `Marshal`/`WriteTo` report (the running sums the Go code keeps). -/
+def SingleWidth.marshalN (s : SingleWidth) : Nat := 4 + 8 + s.index.length
+def MultiWidth.marshalN (m : MultiWidth) : Nat := 4 + (m.map SingleWidth.marshalN).sum
+def MhIndex.marshalN (m : MhIndex) : Nat := 4 + (m.map fun e => 8 + MultiWidth.marshalN e.2).sum
+def Index.writeToN : Index → Nat
+  | .sorted m => (uvarint codecSorted).length + MultiWidth.marshalN m
+  | .mh m => (uvarint codecMhSorted).length + MhIndex.marshalN m
+
+end Car
